@@ -144,6 +144,7 @@ type SkelOpt struct {
 	Assigns map[string]bool // assigned field names (last selector component) reported as Assign
 	Conds   bool            // print if-conditions as source text (otherwise "")
 	Branches bool           // report continue / break as Cont / Brk
+	ArgCalls map[string]bool // calls reported with their argument text: Call "name(args)"
 }
 
 func isLockCall(name string) bool {
@@ -222,6 +223,12 @@ func (f *File) exprEvents(e ast.Node, o SkelOpt) []string {
 			recv, name := lastSel(x.Fun)
 			if isLockCall(name) {
 				out = append(out, name+" "+Q(recv))
+			} else if o.ArgCalls[name] {
+				args := make([]string, len(x.Args))
+				for i, a := range x.Args {
+					args[i] = f.Src(a)
+				}
+				out = append(out, "Call "+Q(name+"("+strings.Join(args, ", ")+")"))
 			} else if o.Calls[name] {
 				out = append(out, "Call "+Q(name))
 			}
